@@ -109,12 +109,41 @@ def showSvcs (l : List Svc) (sorted : Bool) : String :=
 def showVSs (l : List VS) : String :=
   if l.isEmpty then "-" else ",".intercalate (l.map fun v => enc (v.ns ++ "/" ++ v.name))
 
+def numOpt (key : String × String) (t : String) : Option PField :=
+  if t == "-" then none else some { val := t.toNat!, owner := key }
+
+def decSubsets (key : String × String) (t : String) : List Subset :=
+  if t == "-" then [] else (t.splitOn ",").map fun it =>
+    let (a, b) := cut it "~"
+    { name := dec a, owner := key, pool := if b == "" then none else some { val := b.toNat!, owner := key } }
+
+/-- n:<bp> | <pool>:<lb>:<plPort>/<plPool>/<plLB>:<bp> -/
+def decTP (key : String × String) (t : String) : Option TP × Bool :=
+  match t.splitOn ":" with
+  | ["n", bp] => (none, bp == "1")
+  | [pool, lb, pl, bp] =>
+    let portLevel := match pl.splitOn "/" with
+      | [pp, ppool, plb] => if pp == "-" then [] else [{ port := pp.toNat!, pool := numOpt key ppool, lb := numOpt key plb : PortTP }]
+      | _ => []
+    (some { pool := numOpt key pool, lb := numOpt key lb, portLevel := portLevel }, bp == "1")
+  | _ => (none, false)
+
+def showPF (f : Option PField) : String := match f with | some x => toString x.val | none => "-"
+
+def showTP (t : Option TP) : String :=
+  match t with
+  | none => "n"
+  | some t => showPF t.pool ++ ":" ++ showPF t.lb ++
+      String.join (t.portLevel.map fun pl => ";" ++ toString pl.port ++ "/" ++ showPF pl.pool ++ "/" ++ showPF pl.lb)
+
 def showDRs (l : List (String × List CDR)) : String :=
   if l.isEmpty then "-" else
   let l := l.mergeSort (fun a b => !(b.1 < a.1))
   ",".intercalate (l.map fun (h, cs) =>
     enc h ++ ">" ++ "&".intercalate (cs.map fun c =>
-      "+".intercalate (c.frm.map fun f => enc (f.1 ++ "/" ++ f.2)) ++ "/" ++ plus (c.subsets.map enc)))
+      "+".intercalate (c.frm.map fun f => enc (f.1 ++ "/" ++ f.2)) ++ "/" ++
+        plus (c.subsets.map fun sb => enc sb.name ++ (match sb.pool with | some p => "~" ++ toString p.val | none => "")) ++
+        "/" ++ showTP c.tp))
 
 def DState.flags (d : DState) : Flags :=
   { unified := d.unified, pickBest := d.pickBest, enhanced := d.enhanced, visGuard := d.visGuard, exactGuard := d.exactGuard, aliasGuard := d.aliasGuard }
@@ -152,12 +181,17 @@ def decVis : String → SEVis
 def clusterNames (d : DState) (cfgNs : String) (labels : List (String × String)) (services : List Svc) : List String :=
   let drs := selectDestinationRules d.mesh d.drIdx cfgNs services
   (services.filter (·.extName.isNone)).flatMap fun s =>
-    let subsets := match alookup s.hostname drs with
-      | some cs => (match pickDR cfgNs labels cs none with | some c => c.subsets | none => [])
-      | none => []
+    let picked := match alookup s.hostname drs with
+      | some cs => pickDR cfgNs labels cs none
+      | none => none
     s.ports.flatMap fun p =>
-      ("outbound|" ++ toString p.num ++ "||" ++ s.hostname) ::
-        subsets.map fun sub => "outbound|" ++ toString p.num ++ "|" ++ sub ++ "|" ++ s.hostname
+      let base := "outbound|" ++ toString p.num ++ "||" ++ s.hostname
+      match picked with
+      | none => [base ++ "@-"]
+      | some c =>
+        (base ++ "@" ++ showPF (clusterPool c p.num)) ::
+          c.subsets.map fun sub =>
+            "outbound|" ++ toString p.num ++ "|" ++ sub.name ++ "|" ++ s.hostname ++ "@" ++ showPF (subsetClusterPool c sub p.num)
 
 /-- the endpoint address the harness registers for a (hostname, namespace) key -/
 def keyAddr (raw : List Svc) (h ns : String) : String :=
@@ -233,7 +267,25 @@ def mkSvcD (id h ns reg ct name ports ex vis res attr al : String) (x : Option S
     ctime := ct.toNat!, ports := decPorts ports, exportTo := decItems ex ",",
     vis := decVis vis, resolution := res.toNat!, attr := dec attr, aliases := decAliases al, extName := x }
 
-def stepD (d : DState) (toks : List String) : DState × String :=
+/-- (re)build every index from the declared objects: the answer of a fresh PushContext -/
+def rebuild (d : DState) : DState :=
+  { d with built := true, defaultNs := [],
+           svcs := resolveAliases (sortServices (d.raw.map fun s =>
+             if d.autoVis.contains s.id then { s with vis := visibilityFor d.sev ((alookup s.ns d.nsLabels).getD []) } else s)),
+           vss := sortVS (mergeVSs d.mesh d.vssRaw),
+           drIdx := setDestinationRules d.enhanced d.drGuard d.mesh d.drs }
+
+/-- drop the object an `update` / `delete` line names -/
+def dropObject (d : DState) (kind name ns : String) : DState :=
+  match kind with
+  | "dr" => { d with drs := d.drs.filter fun x => !(x.name == name && x.ns == ns) }
+  | "sc" => { d with scs := d.scs.filter fun x => !(x.name == name && x.ns == ns) }
+  | "vs" => { d with vssRaw := d.vssRaw.filter fun x => !(x.name == name && x.ns == ns) }
+  | "svc" => { d with raw := d.raw.filter fun x => x.id != name, autoVis := d.autoVis.filter (· != name) }
+  | _ => d
+
+mutual
+partial def stepD (d : DState) (toks : List String) : DState × String :=
   match toks with
   | "case" :: rest =>
     ({ unified := flagOf rest "U" true, pickBest := flagOf rest "P" true, enhanced := flagOf rest "E" true,
@@ -261,19 +313,29 @@ def stepD (d : DState) (toks : List String) : DState × String :=
                     exportTo := decItems ex ",", gateways := decItems gws ",", gwSem := tokBool gwsem,
                     http := decHTTP http, tcp := decDests tcp }
     ({ d with vssRaw := d.vssRaw ++ [v] }, "ok")
-  | ["dr", name, ns, ct, h, ex, sel, subs] =>
+  | ["dr", name, ns, ct, h, ex, sel, subs, tp] =>
+    let key := (dec ns, dec name)
+    let (tpv, bp) := decTP key tp
     let r : DR := { name := dec name, ns := dec ns, ctime := ct.toNat!, host := dec h,
                     exportTo := decItems ex ",", selector := sel != "nil", selLabels := (decLabels sel).getD [],
-                    subsets := decItems subs "," }
+                    subsets := decSubsets key subs, tp := tpv, backend := bp }
     ({ d with drs := d.drs ++ [r] }, "ok")
   | ["sc", name, ns, ct, sel, egress] =>
     let c : Sidecar := { name := dec name, ns := dec ns, ctime := ct.toNat!, selector := decLabels sel,
                          egress := decEgress egress }
     ({ d with scs := d.scs ++ [c] }, "ok")
-  | ["build"] =>
-    ({ d with built := true, defaultNs := [], svcs := resolveAliases (sortServices (d.raw.map fun s =>
-                if d.autoVis.contains s.id then { s with vis := visibilityFor d.sev ((alookup s.ns d.nsLabels).getD []) } else s)), vss := sortVS (mergeVSs d.mesh d.vssRaw),
-              drIdx := setDestinationRules d.enhanced d.drGuard d.mesh d.drs }, "ok")
+  | ["build"] => (rebuild d, "ok")
+  | "update" :: decl =>
+    -- one object changes; an incrementally updated PushContext must answer like a fresh one
+    if !d.built then (d, "not-built") else
+    match decl with
+    | kind :: a :: b :: _ =>
+      let d0 := if kind == "svc" then dropObject d kind (dec a) "" else dropObject d kind (dec a) (dec b)
+      let (d1, r) := stepD { d0 with built := false } decl
+      if r == "ok" then (rebuild d1, "ok") else (d, "bad-op")
+    | _ => (d, "bad-op")
+  | ["delete", kind, name, ns] =>
+    if !d.built then (d, "not-built") else (rebuild (dropObject d kind (dec name) (dec ns)), "ok")
   | [q, ns, lbl] =>
     if q != "scope" && q != "xds" && q != "eds" then (if d.built then (d, query d toks) else (d, "not-built")) else
     if !d.built then (d, "not-built") else
@@ -281,5 +343,6 @@ def stepD (d : DState) (toks : List String) : DState × String :=
     let cached := (pickSidecar d.mesh d.scs cfgNs ((decLabels lbl).getD [])).isNone
     ({ d with defaultNs := if cached then cfgNs :: d.defaultNs else d.defaultNs }, query d toks)
   | _ => if d.built then (d, query d toks) else (d, "not-built")
+end
 
 end IstioModel.C07
